@@ -32,6 +32,22 @@ def gen(rng, tier):
                         "timecheck now=%d" % (t0 + gap + 34000), "all svc=ns|g|s1",
                         "timecheck now=%d" % (t0 + gap + 36000), "all svc=ns|g|s1", "audit"]
                 cases.append(Case("probe-%s-%d-%s" % (kind, gap, again), ops, True, "directed"))
+    # the cluster grows and the process range moves: an HTTP instance that this node registered (its entries in the
+    # time-out queues live here and nowhere else) belongs to a service that is no longer in this node's range - it must
+    # still be marked unhealthy and removed when it falls silent; a beating neighbour and an in-range service as controls
+    for when in ("before", "after"):
+        t0 = 1000
+        reg = ["upd svc=ns|g|s9-out ip=10.0.0.1 port=80 eph=1 grpc=0 fc=0 cid=- healthy=1 en=1 w=1000 tag=- sync=0 now=%d" % t0,
+               "upd svc=ns|g|s9-out ip=10.0.0.2 port=80 eph=1 grpc=0 fc=0 cid=- healthy=1 en=1 w=1000 tag=- sync=0 now=%d" % t0,
+               "upd svc=ns|g|s1 ip=10.0.0.3 port=8080 eph=1 grpc=0 fc=0 cid=- healthy=1 en=1 w=1000 tag=- sync=0 now=%d" % t0]
+        rng2 = ["range2 in=ns|g|s1 out=ns|g|s9-out now=%d" % (t0 + 10)]
+        ops = (rng2 + reg) if when == "after" else (reg + rng2)
+        for t in (10000, 19000, 28000, 34500, 37000):
+            if t < 30000:
+                ops.append("upd svc=ns|g|s9-out ip=10.0.0.2 port=80 eph=1 grpc=0 fc=0 cid=- healthy=1 en=1 w=1000 tag=none sync=0 now=%d" % (t0 + t - 500))
+            ops += ["timecheck now=%d" % (t0 + t), "all svc=ns|g|s9-out", "all svc=ns|g|s1"]
+        ops.append("audit")
+        cases.append(Case("range-moves-%s" % when, ops, True, "directed"))
     for i in range(200 if big else 30):
         cases.append(Case("Mreg-%d" % i, g.gen_mixed(rng, rng.randrange(4, 30)), False, "random"))
     return cases
